@@ -1,6 +1,8 @@
 """C12: namespace selectors compare namespace URIs through the supplied prefix map."""
 import json
 import random
+import re
+from collections import Counter
 import warnings
 
 import bs4
@@ -16,13 +18,18 @@ SOURCES = ['SoupVerif/Properties/C12.lean', 'SoupVerif/Lemmas/Names.lean', 'Soup
 RULE = ('XML documents (lxml-xml) with default, prefixed, redeclared and undeclared namespaces on elements and attributes, '
         'HTML5 documents (html5lib) with inline SVG/MathML and xlink attributes, html.parser documents (no namespace '
         'support); prefix maps equal to, different from and colliding with the document\'s own prefixes, with and without a '
-        'default entry; every selector form: ns|E, *|E, |E, E, ns|*, [ns|a], [*|a], [|a], [a], unmapped prefixes. Checked '
+        'default entry; every selector form: ns|E, *|E, |E, E, ns|*, [ns|a], [*|a], [|a], [a], unmapped prefixes; the same forms '
+        'composed: compounds, combinators, selector lists, :is()/:where()/:not()/:has(), and reached through custom '
+        'pseudo-classes (custom={":--x": "ns|E"}, nested definitions; patterns whose only prefixes live in the custom '
+        'definitions and the reverse); one pattern evaluated under several prefix maps back to back (no purge). Checked '
         'on PY against an independent reading of the rule from the element\'s namespace URI / the attribute key\'s namespace '
         '(the property), and PY = Lean matcher model. Non-trivial = non-empty result.')
 
 U1, U2, U3 = 'urn:one', 'urn:two', gen.SVG
 NAMES = ['a', 'b', 'item']
 ATTRS = ['x', 'href', 'id']
+VALUES = ['1', '2', '1', '2', '12', '21', '1 2', '2-1']
+OPS = ['=', '=', '=', '^=', '$=', '*=', '~=', '|=', '!=']
 
 
 def xml_doc(r):
@@ -37,13 +44,24 @@ def xml_doc(r):
             scope[''] = r.choice([U1, U2, ''])
             decl += f' xmlns="{scope[""]}"'
         pref = r.choice([''] + [k for k in scope if k])
+        if r.random() < 0.06:
+            pref = 'u'          # never declared: the (recovering) parser keeps the element, without a namespace
         name = r.choice(NAMES)
         qn = f'{pref}:{name}' if pref else name
         attrs = ''
-        for a in r.sample(ATTRS, r.randint(0, 2)):
-            ap = r.choice([''] * 2 + [k for k in scope if k])
-            attrs += f' {ap + ":" if ap else ""}{a}="{r.choice(["1", "2"])}"'
-        kids = ''.join(el(depth + 1, scope) for _ in range(r.randint(0, 3))) if depth < 3 else ''
+        seen = set()
+        last = None
+        for _ in range(r.choice([0, 1, 1, 2, 2, 3, 4])):
+            # the same local name may occur several times on one element: without a namespace and in different ones
+            a = last if last and r.random() < 0.5 else r.choice(ATTRS)
+            last = a
+            ap = r.choice([''] * 2 + [k for k in scope if k]) if r.random() >= 0.05 else 'u'
+            expanded = (scope.get(ap) if ap and ap != 'u' else None, a)    # an undeclared prefix is dropped by the parser
+            if expanded in seen:
+                continue
+            seen.add(expanded)
+            attrs += f' {ap + ":" if ap else ""}{a}="{r.choice(VALUES)}"'
+        kids = ''.join(el(depth + 1, scope) for _ in range(r.randint(2 if depth == 0 else 0, 3))) if depth < 3 else ''
         return f'<{qn}{decl}{attrs}>{kids}</{qn}>'
     return '<?xml version="1.0"?>' + el(0, {})
 
@@ -97,10 +115,381 @@ def expect(sel_form, els, nsmap, supports):
     return out
 
 
+def esc(name):
+    """Names are letters, digits and (html.parser keeps `xlink:href` as one name) a colon."""
+    return name.replace(':', '\\:')
+
+
 def render(sel_form):
     kind, pfx, name = sel_form
     p = '' if pfx is None else pfx + '|'
+    name = esc(name)
     return f'{p}{name}' if kind == 'type' else f'[{p}{name}]'
+
+
+# ---------------------------------------------------------------------------------------------------------------------
+# Composed selectors.  A small selector AST, a renderer and an evaluator that reads the property directly off the tree
+# (element local name + namespace URI, attribute key local name + namespace URI, parent / sibling links).
+#   compound  ('cp', type-form-or-None, [item, ...])
+#   item      ('attr', pfx, name) | ('is'|'where'|'not', [complex, ...]) | ('has', comb, compound) | ('custom', ':--name')
+#   complex   [compound, comb, compound, ...]            selector list = [complex, ...]
+# Custom pseudo-classes are one more way to spell a selector list: `customs` maps ':--name' -> selector list, and the
+# definition obeys the same prefix map as the pattern that uses it.
+COMBS = [' ', ' > ', ' + ', ' ~ ']
+PFXS = [None, None, '', '*', 'p', 'q', 'svg', 'z', 'xlink', 'h']
+TYPE_NAMES = NAMES + ['*', '*', 'circle', 'mi', 'p', 'svg']
+ATTR_NAMES = ATTRS + ['p', 'q']        # 'p', 'q': local names of the xmlns:p / xmlns:q declaration attributes
+
+
+DEFAULT_POOL = {'pfx': PFXS, 'type': TYPE_NAMES, 'attr': ATTR_NAMES, 'val': VALUES}
+
+
+XMLNS = 'http://www.w3.org/2000/xmlns/'
+
+
+def doc_pool(r, els, nsmap):
+    """Draw mostly from what the document contains and the map knows: an unmapped prefix or an absent name matches
+    nothing, which is worth testing but makes a composed selector vacuous."""
+    mapped = [k for k in nsmap if k]
+    tn = sorted({e.name for e in els})
+    plain = [(k, v) for e in els for k, v in e.attrs.items() if getattr(k, 'namespace', None) != XMLNS and str(k) != 'xmlns' and isinstance(v, str)]
+    an = sorted({getattr(k, 'name', None) or str(k) for k, _ in plain})
+    vals = sorted({v for _, v in plain})
+    return {'pfx': [None, None, '', '*'] + mapped * 3 + [r.choice(['p', 'q', 'svg', 'z', 'xlink', 'h'])],
+            'type': tn * 2 + ['*'] * (1 + len(tn) // 2) + [r.choice(TYPE_NAMES)],
+            'attr': an * 2 + [r.choice(ATTR_NAMES)],
+            'val': vals * 2 + [r.choice(VALUES)],
+            'els': els + [e for e in els if repeated_local_name(e)] * 3, 'ns': nsmap}
+
+
+def repeated_local_name(e):
+    """Does the element carry one local attribute name more than once (in different namespaces / none)?"""
+    local = [getattr(k, 'name', None) or str(k) for k in e.attrs if getattr(k, 'namespace', None) != XMLNS]
+    return len(set(local)) < len(local)
+
+
+def prefix_for(r, pool, uri):
+    """A way to write 'in namespace `uri`' (None: no namespace) under the pool's map."""
+    ways = [k for k, v in pool['ns'].items() if k and v == uri] * 3 + ['*']
+    if not uri:
+        ways += ['', '']
+    return r.choice(ways)
+
+
+def gen_attr(r, pfx, pool=DEFAULT_POOL, witness=None):
+    own = [k for k in witness.attrs if getattr(k, 'namespace', None) != XMLNS] if witness is not None else []
+    if own and r.random() < 0.8:
+        # describe an attribute the witness element has (namespace declarations aside)
+        local = [getattr(k, 'name', None) or str(k) for k in own]
+        # a local name the element carries more than once (in different namespaces / none) is the interesting one
+        k = r.choice([k for k, n in zip(own, local) for _ in range(4 if local.count(n) > 1 else 1)])
+        kns, v = getattr(k, 'namespace', None), witness.attrs[k]
+        v = v if isinstance(v, str) else ' '.join(v)
+        name = getattr(k, 'name', None) if kns is not None else str(k)
+        if pfx is not None or kns is not None:
+            pfx = prefix_for(r, pool, kns) if r.random() < 0.85 else pfx
+        if r.random() < 0.4 or not v.strip():
+            return ('attr', pfx, name)
+        op = r.choice(OPS)
+        val = {'=': v, '!=': v, '^=': v[:r.randint(1, len(v))], '$=': v[-r.randint(1, len(v)):], '*=': v[len(v) // 2:][:1],
+               '~=': v.split()[0], '|=': v.split('-')[0]}[op]
+        return ('attr', pfx, name, op, val if r.random() < 0.85 else r.choice(pool['val']))
+    if r.random() < 0.5:
+        return ('attr', pfx, r.choice(pool['attr']))
+    return ('attr', pfx, r.choice(pool['attr']), r.choice(OPS), r.choice(pool['val'] + ['', '-', '1', '2']))
+
+
+def render_attr(it):
+    p = '' if it[1] is None else it[1] + '|'
+    if len(it) == 3:
+        return f'[{p}{esc(it[2])}]'
+    q = '"' if len(it[4]) % 2 else "'"
+    return f'[{p}{esc(it[2])}{it[3]}{q}{it[4]}{q}]'
+
+
+def value_test(op, val, v):
+    """CSS attribute operators on one attribute value (`!=` is handled by the caller: it negates `=` on the element)."""
+    if op == '=':
+        return v == val
+    if op == '^=':
+        return val != '' and v.startswith(val)
+    if op == '$=':
+        return val != '' and v.endswith(val)
+    if op == '*=':
+        return val != '' and val in v
+    if op == '~=':
+        return val != '' and not any(c in val for c in ' \t\n\f\r') and val in [w for w in re.split('[ \t\n\f\r]+', v) if w]
+    if op == '|=':
+        return v == val or v.startswith(val + '-')
+    raise ValueError(op)
+
+
+def gen_compound(r, depth, customs, bare, pool=DEFAULT_POOL):
+    # half of the compounds describe an element that exists (name, namespace as the map spells it, attributes)
+    w = r.choice(pool['els']) if pool.get('els') and r.random() < 0.5 else None
+
+    def pfx():
+        return None if bare else r.choice(pool['pfx'])
+    t = None
+    if r.random() < 0.55:
+        if w is not None:
+            t = ('type', None if bare or r.random() < 0.2 else prefix_for(r, pool, w.namespace), r.choice([w.name, w.name, '*']))
+        else:
+            t = ('type', pfx(), r.choice(pool['type']))
+    items = []
+    for _ in range(r.choice([0, 0, 1, 1, 2]) if t else r.choice([1, 1, 1, 2])):
+        x = r.random()
+        if customs and x < 0.3:
+            items.append(('custom', r.choice(customs)))
+        elif depth > 0 and x < 0.5:
+            items.append((r.choice(['is', 'not', 'not', 'where']), [gen_complex(r, depth - 1, customs, bare, pool) for _ in range(r.choice([1, 1, 2]))]))
+        elif depth > 0 and x < 0.58:
+            items.append(('has', r.choice(COMBS), gen_compound(r, depth - 1, customs, bare, pool)))
+        else:
+            items.append(gen_attr(r, pfx(), pool, w))
+    return ('cp', t, items)
+
+
+def gen_complex(r, depth, customs, bare, pool=DEFAULT_POOL):
+    cx = [gen_compound(r, depth, customs, bare, pool)]
+    while len(cx) < 5 and r.random() < 0.22:
+        cx += [r.choice(COMBS), gen_compound(r, depth, customs, bare, pool)]
+    return cx
+
+
+def gen_composed(r, pool):
+    """-> (selector list AST, {':--name': selector list AST}, where the prefixes live)."""
+    pfxs = pool['pfx']
+    where = r.choice(['custom-only', 'custom-only', 'pattern-only', 'both', 'both', 'no-custom', 'no-custom'])
+    customs = {}
+    if where != 'no-custom':
+        for i in range(r.choice([1, 1, 2, 3])):
+            # a definition may use the ones defined before it
+            customs[f':--c{i}'] = [gen_complex(r, r.choice([0, 0, 1]), list(customs), where == 'pattern-only', pool) for _ in range(r.choice([1, 1, 2]))]
+    names = list(customs)
+    if where == 'no-custom' and r.random() < 0.6:
+        # one attribute test, its negation, or two of them on one element
+        w = r.choice(pool['els']) if pool.get('els') and r.random() < 0.7 else None
+        a = gen_attr(r, r.choice(pfxs + ['*', '*']), pool, w)
+        t = r.choice([None, None, ('type', r.choice(pfxs), r.choice(pool['type']))])
+        shape = r.randrange(4)
+        if shape < 2:
+            lst = [[('cp', t, [a])]]
+        elif shape == 2:
+            lst = [[('cp', t, [('not', [[('cp', None, [a])]])])]]
+        else:
+            lst = [[('cp', t, [a, r.choice([gen_attr(r, r.choice(pfxs), pool, w), ('not', [[('cp', None, [gen_attr(r, a[1], pool, w)])]])])])]]
+    elif where == 'custom-only' and r.random() < 0.5:
+        # the pattern is little more than the custom pseudo-class
+        c = ('custom', names[-1])
+        t = r.choice([None, None, ('type', None, r.choice(pool['type']))])
+        shape = r.randrange(5)
+        if shape == 0:
+            lst = [[('cp', t, [c])]]
+        elif shape == 1:
+            lst = [[('cp', ('type', None, r.choice(pool['type'])), []), r.choice(COMBS), ('cp', t, [c])]]
+        elif shape == 2:
+            lst = [[('cp', t, [c]), r.choice(COMBS), gen_compound(r, 0, names, True, pool)]]
+        elif shape == 3:
+            lst = [[('cp', t, [(r.choice(['not', 'is', 'where']), [[('cp', None, [c])]])])]]
+        else:
+            lst = [[('cp', t, [('has', r.choice(COMBS), ('cp', None, [c]))])]]
+    else:
+        lst = [gen_complex(r, r.choice([0, 1, 1, 2]), names, where == 'custom-only', pool) for _ in range(r.choice([1, 1, 1, 2]))]
+        if names and not any(n in render_list(lst) for n in names):
+            lst[0][-1][2].append(('custom', r.choice(names)))
+    return lst, customs, where
+
+
+def render_compound(cp):
+    _, t, items = cp
+    out = render(t) if t else ''
+    for it in items:
+        if it[0] == 'attr':
+            out += render_attr(it)
+        elif it[0] == 'custom':
+            out += it[1]
+        elif it[0] == 'has':
+            out += f':has({it[1].strip()} {render_compound(it[2])})' if it[1].strip() else f':has({render_compound(it[2])})'
+        else:
+            out += f':{it[0]}({render_list(it[1])})'
+    return out
+
+
+def render_list(lst):
+    return ', '.join(''.join(x if isinstance(x, str) else render_compound(x) for x in cx) for cx in lst)
+
+
+def uses_prefix(lst):
+    """Does this selector list itself (custom definitions not followed) write a namespace prefix?"""
+    def cp_uses(cp):
+        _, t, items = cp
+        if t and t[1] is not None:
+            return True
+        for it in items:
+            if it[0] == 'attr' and it[1] is not None:
+                return True
+            if it[0] == 'has' and cp_uses(it[2]):
+                return True
+            if it[0] in ('is', 'not', 'where') and uses_prefix(it[1]):
+                return True
+        return False
+    return any(cp_uses(x) for cx in lst for x in cx if not isinstance(x, str))
+
+
+class TreeOracle:
+    """The property, read off the tree.  `fold`: HTML5 documents compare names ASCII case-insensitively."""
+
+    def __init__(self, els, nsmap, customs, fold=False):
+        self.els, self.ns, self.customs, self.fold = els, nsmap, customs, fold
+        ids = {id(e) for e in els}
+        self.parent = {id(e): (e.parent if id(e.parent) in ids else None) for e in els}
+        self.kids = {id(e): [c for c in e.contents if isinstance(c, bs4.Tag)] for e in els}
+
+    def name_eq(self, a, b):
+        return a.lower() == b.lower() if self.fold else a == b
+
+    @staticmethod
+    def uri(e):
+        return e.namespace or ''
+
+    def in_default(self, e):
+        return '' not in self.ns or self.ns[''] == self.uri(e)
+
+    def type_(self, e, pfx, name):
+        if name != '*' and not self.name_eq(e.name, name):
+            return False
+        if pfx is None:
+            return self.in_default(e)
+        if pfx == '':
+            return self.uri(e) == ''
+        if pfx == '*':
+            return True
+        return pfx in self.ns and self.ns[pfx] == self.uri(e)
+
+    def attr(self, e, pfx, name, op=None, val=None):
+        """Some attribute with that local name in the designated namespace(s) exists / has a matching value."""
+        if op == '!=':
+            return not self.attr(e, pfx, name, '=', val)
+        for k, v in e.attrs.items():
+            kns, kname = getattr(k, 'namespace', None), getattr(k, 'name', None)
+            if pfx in (None, ''):
+                hit = self.name_eq(str(k), name)
+            elif pfx == '*':
+                hit = self.name_eq(str(k), name) if kns is None else self.name_eq(kname, name)
+            else:
+                hit = pfx in self.ns and kns is not None and kns == self.ns[pfx] and self.name_eq(kname, name)
+            if hit and (op is None or value_test(op, val, v if isinstance(v, str) else ' '.join(v))):
+                return True
+        return False
+
+    def before(self, e):
+        p = self.parent[id(e)]
+        sibs = self.kids[id(p)] if p is not None else []
+        i = next((i for i, s in enumerate(sibs) if s is e), 0)
+        return sibs[:i]
+
+    def after(self, e):
+        p = self.parent[id(e)]
+        sibs = self.kids[id(p)] if p is not None else []
+        i = next((i for i, s in enumerate(sibs) if s is e), len(sibs))
+        return sibs[i + 1:]
+
+    def descendants(self, e):
+        out = []
+        for c in self.kids[id(e)]:
+            out.append(c)
+            out.extend(self.descendants(c))
+        return out
+
+    def compound(self, e, cp, top):
+        _, t, items = cp
+        if t is None:
+            # only a compound written at the top level of the pattern carries an implied universal selector
+            if top and not self.in_default(e):
+                return False
+        elif not self.type_(e, t[1], t[2]):
+            return False
+        return all(self.item(e, it) for it in items)
+
+    def item(self, e, it):
+        k = it[0]
+        if k == 'attr':
+            return self.attr(e, *it[1:])
+        if k == 'custom':
+            return self.any_of(e, self.customs[it[1]], False)
+        if k == 'not':
+            return not self.any_of(e, it[1], False)
+        if k == 'has':
+            comb = it[1].strip()
+            rel = (self.descendants(e) if comb == '' else self.kids[id(e)] if comb == '>' else self.after(e)[:1] if comb == '+' else self.after(e))
+            return any(self.compound(x, it[2], False) for x in rel)
+        return self.any_of(e, it[1], False)
+
+    def any_of(self, e, lst, top):
+        return any(self.complex(e, cx, top) for cx in lst)
+
+    def complex(self, e, cx, top):
+        if not self.compound(e, cx[-1], top):
+            return False
+        if len(cx) == 1:
+            return True
+        comb, rest = cx[-2].strip(), cx[:-2]
+        if comb == '>':
+            cand = [self.parent[id(e)]]
+        elif comb == '':
+            cand, p = [], self.parent[id(e)]
+            while p is not None:
+                cand.append(p)
+                p = self.parent[id(p)]
+        elif comb == '+':
+            cand = self.before(e)[-1:]
+        else:
+            cand = self.before(e)
+        return any(c is not None and self.complex(c, rest, top) for c in cand)
+
+    def select(self, lst):
+        return [id(e) for e in self.els if self.any_of(e, lst, True)]
+
+
+def vary_map(r, nsmap):
+    """A neighbouring prefix map: one prefix re-bound, dropped or added, or the default entry toggled."""
+    m = dict(nsmap)
+    x = r.random()
+    keys = [k for k in m if k]
+    if x < 0.3 and keys:
+        m[r.choice(keys)] = r.choice([U1, U2, U3, gen.XLINK, gen.XHTML])
+    elif x < 0.5 and keys:
+        del m[r.choice(keys)]
+    elif x < 0.75:
+        m[r.choice(['p', 'q', 'svg', 'z', 'xlink', 'h'])] = r.choice([U1, U2, U3, gen.XLINK, gen.XHTML])
+    elif '' in m:
+        del m['']
+    else:
+        m[''] = r.choice([U1, U2, gen.XHTML, U3])
+    return m
+
+
+def rule_check(soup, els, xml, sel, custom, maps, ast, stats=None):
+    """Evaluate one pattern on the real library under the prefix maps of `maps` one after the other (the compile cache
+    is not purged in between) and compare each answer with the tree oracle.  -> list of failure records."""
+    bad = []
+    for step, nsmap in enumerate(maps):
+        try:
+            got = [id(e) for e in sv.select(sel, soup, namespaces=nsmap, custom=custom or None)]
+        except Exception as e:
+            bad.append({'step': step, 'namespaces': nsmap, 'exception': repr(e)})
+            continue
+        if ast[0] == 'form':
+            want = expect(ast[1], els, nsmap, True) if xml else None
+        else:
+            want = TreeOracle(els, nsmap, ast[2], fold=not xml).select(ast[1])
+        if want and stats is not None:
+            stats['rule_instances_nonempty'] += 1
+        if want is not None and got != want:
+            pos = {id(e): n for n, e in enumerate(els)}
+            bad.append({'step': step, 'namespaces': nsmap, 'got': [pos.get(g) for g in got], 'want': [pos[w] for w in want]})
+    return bad
 
 
 def make_cases_factory(state):
@@ -122,33 +511,62 @@ def make_cases_factory(state):
             root = next((c for c in soup.contents if isinstance(c, bs4.Tag)), None)
             supports = bool(soup._is_xml) or (root is not None and root.namespace == gen.XHTML)
             xml = bool(soup._is_xml)
+            doc_uris = sorted({e.namespace for e in els if e.namespace} | {k.namespace for e in els for k in e.attrs if getattr(k, 'namespace', None)})
+            state['documents'] += 1
+            state['documents_repeated_local'] += any(repeated_local_name(e) for e in els)
             for _ in range(5):
+                composed = rng.random() < 0.45
+                # composed selectors: the map mostly speaks about namespaces that occur in the document
+                uris = [U1, U2, U3, gen.XLINK, gen.XHTML] + (doc_uris * 2 if composed else [])
                 nsmap = {}
-                for p in rng.sample(['p', 'q', 'svg', 'z', 'xlink', 'h'], rng.randint(0, 3)):
-                    nsmap[p] = rng.choice([U1, U2, U3, gen.XLINK, gen.XHTML])
+                for p in rng.sample(['p', 'q', 'svg', 'z', 'xlink', 'h'], rng.randint(1 if composed and rng.random() < 0.9 else 0, 3)):
+                    nsmap[p] = rng.choice(uris)
                 if rng.random() < 0.25:
-                    nsmap[''] = rng.choice([U1, U2, gen.XHTML, U3])
-                pfx = rng.choice([None, '', '*', 'p', 'q', 'svg', 'z', 'xlink', 'h'])
-                form = (rng.choice(['type', 'type', 'attr']), pfx, rng.choice(NAMES + ATTRS + ['*', 'circle', 'mi', 'p']))
-                if form[0] == 'attr' and form[2] == '*':
-                    continue
-                sel = render(form)
-                if xml and root is not None and root.namespace != gen.XHTML and rng.random() < 0.4:
-                    # HTML-only pseudo-classes never match in plain XML, so these decorations change nothing
-                    sel += rng.choice([':not(:checked)', ':not(:link)', ':not(:disabled, :required)', ':is(*|*, :enabled)', ':not(:read-write)',
-                                       ':not(:default):not(:indeterminate)'])
-                state['checks'] += 1
-                try:
-                    got = [id(e) for e in sv.select(sel, soup, namespaces=nsmap)]
-                    # the independent reading applies to documents with namespace support and exact (XML) names;
-                    # in HTML5 documents names fold, so compare names case-insensitively there
-                    if supports and xml:
-                        want = expect(form, els, nsmap, supports)
-                        if got != want:
-                            state['bad'].append({'selector': sel, 'namespaces': nsmap, 'markup': markup, 'parser': parser,
-                                                 'got': len(got), 'want': len(want)})
-                except Exception as e:
-                    state['bad'].append({'selector': sel, 'namespaces': nsmap, 'markup': markup, 'parser': parser, 'exception': repr(e)})
+                    nsmap[''] = rng.choice(uris[:3] + uris[4:])
+                custom = {}
+                if composed:
+                    # composed selector: compounds, combinators, lists, :is/:not/:where/:has, custom pseudo-classes
+                    lst, customs, where = gen_composed(rng, doc_pool(rng, els, nsmap))
+                    sel = render_list(lst)
+                    custom = {k: render_list(v) for k, v in customs.items()}
+                    ast = ('composed', lst, customs)
+                    oracle_applies = supports          # names are compared exactly in XML, case-folded in HTML5
+                    state['composed'] += 1
+                    state['where_' + where] += 1
+                    state['attr_value_tests'] += any(q in t for t in [sel] + list(custom.values()) for q in ('="', "='"))
+                    if customs and not uses_prefix(lst) and any(uses_prefix(v) for v in customs.values()) and any(k in sel for k in customs):
+                        state['prefix_only_via_custom'] += 1
+                        if '' not in nsmap:
+                            state['prefix_only_via_custom_no_default'] += 1
+                else:
+                    pfx = rng.choice([None, '', '*', 'p', 'q', 'svg', 'z', 'xlink', 'h'])
+                    form = (rng.choice(['type', 'type', 'attr']), pfx, rng.choice(NAMES + ATTRS + ['*', 'circle', 'mi', 'p']))
+                    if form[0] == 'attr' and form[2] == '*':
+                        continue
+                    sel = render(form)
+                    if xml and root is not None and root.namespace != gen.XHTML and rng.random() < 0.4:
+                        # HTML-only pseudo-classes never match in plain XML, so these decorations change nothing
+                        sel += rng.choice([':not(:checked)', ':not(:link)', ':not(:disabled, :required)', ':is(*|*, :enabled)', ':not(:read-write)',
+                                           ':not(:default):not(:indeterminate)'])
+                    ast = ('form', form)
+                    # the independent reading applies to documents with namespace support and exact (XML) names
+                    oracle_applies = supports and xml
+                maps = [nsmap]
+                if oracle_applies and rng.random() < 0.3:
+                    # the same pattern under neighbouring maps, back to back, and the first map again
+                    maps += [vary_map(rng, nsmap) for _ in range(rng.choice([1, 1, 2]))] + [nsmap]
+                    state['map_sequences'] += 1
+                state['checks'] += len(maps) if oracle_applies else 1
+                if oracle_applies:
+                    for b in rule_check(soup, els, xml, sel, custom, maps, ast, state):
+                        state['bad'].append({'selector': sel, 'custom': custom, 'markup': markup, 'parser': parser, 'maps': maps,
+                                             'ast': ast, **b})
+                else:
+                    try:
+                        sv.select(sel, soup, namespaces=nsmap, custom=custom or None)
+                    except Exception as e:
+                        state['bad'].append({'selector': sel, 'custom': custom, 'namespaces': nsmap, 'markup': markup, 'parser': parser,
+                                             'exception': repr(e)})
                 # the same question asked from inside the tree: the call target may itself be a foreign (non-XHTML) element
                 qs = [('select', [], 0)]
                 foreign = [e for e in els if e.namespace not in (None, gen.XHTML)]
@@ -156,24 +574,50 @@ def make_cases_factory(state):
                     qs.append(('select', enc.path_of(e), 0))
                     qs.append(('match', enc.path_of(e), 0))
                     qs.append(('closest', enc.path_of(e), 0))
-                cases.append({'markup': markup, 'parser': parser, 'selector': sel, 'ns': nsmap, 'queries': qs})
+                case = {'markup': markup, 'parser': parser, 'selector': sel, 'ns': nsmap, 'queries': qs}
+                if custom:
+                    case['custom'] = custom
+                cases.append(case)
         return cases[:n]
     return make_cases
 
 
 def run(chk):
-    state = {'checks': 0, 'bad': []}
+    state = Counter()
+    state['bad'] = []
     orig = chk.finish
 
     def finish(**kw):
-        chk.coverage.update({'rule_instances': state['checks'], 'rule_violations': len(state['bad'])})
+        chk.coverage.update({'rule_instances': state['checks'], 'rule_violations': len(state['bad']),
+                             'rule_instances_with_nonempty_answer': state['rule_instances_nonempty'],
+                             'composed_selectors': state['composed'],
+                             'composed_prefixes_live_in': {k[6:]: v for k, v in state.items() if k.startswith('where_')},
+                             'patterns_whose_only_prefixes_are_in_custom_definitions': state['prefix_only_via_custom'],
+                             'of_which_map_without_default_entry': state['prefix_only_via_custom_no_default'],
+                             'prefix_map_sequences_without_purge': state['map_sequences'],
+                             'composed_selectors_with_attribute_value_tests': state['attr_value_tests'],
+                             'documents': state['documents'],
+                             'documents_with_one_local_attribute_name_in_several_namespaces_on_one_element': state['documents_repeated_local']})
         for i, b in enumerate(state['bad'][:5]):
             chk.violation(f'rule{i}', {'what': 'namespace rule violated on the real code', **b}, concrete=True)
         return orig(**kw)
     chk.finish = finish
-    return common_match.run(chk, PID, SOURCES, make_cases_factory(state), 1500, 60000, RULE,
+    return common_match.run(chk, PID, SOURCES, make_cases_factory(state), 3000, 60000, RULE,
                             'SoupVerif.Properties.C12 / correspondence PY select ≡ Model select on namespaced trees')
 
 
 def replay(chk, path):
-    return common_match.replay(chk, path, PID)
+    data = json.load(open(path))
+    if 'case' in data:
+        return common_match.replay(chk, path, PID)
+    # a rule violation: re-evaluate the real library against the tree oracle
+    soup = bs4.BeautifulSoup(data['markup'], data['parser'])
+    if 'ast' not in data:
+        sv.select(data['selector'], soup, namespaces=data['namespaces'], custom=data.get('custom') or None)
+        return 0
+    bad = rule_check(soup, gen.elements(soup), bool(soup._is_xml), data['selector'], data.get('custom'), data['maps'], data['ast'])
+    print(json.dumps(bad, default=repr))
+    if bad:
+        print(f'VIOLATION property={PID} replay={path}')
+        return 1
+    return 0
